@@ -283,8 +283,8 @@ ops:
 	res.Term = fmt.Sprintf("mk %s %s %s %s", c.ConfigTerm(), rs0.Term(), drv.WritersTerm(w0), lib.List(terms))
 	if c.Fault && !tags["request-never-answered"] {
 		if f := s.FaultStop(); f != nil {
-			res.Term = fmt.Sprintf("mkF %s %s %s %s %s %s %s", c.ConfigTerm(), rs0.Term(), drv.WritersTerm(w0), lib.List(terms),
-				drv.WritersTerm(f.Writers), lib.Z(int64(f.Open)), lib.B(f.Stored))
+			res.Term = fmt.Sprintf("mkF %s %s %s %s %s %s %s %s", c.ConfigTerm(), rs0.Term(), drv.WritersTerm(w0), lib.List(terms),
+				drv.WritersTerm(f.Writers), lib.Z(int64(f.Open)), lib.B(f.Stored), lib.B(f.Active))
 			outs = append(outs, stepOut{"FAULT-STOP", f})
 			tags["fault-stop"] = true
 		}
